@@ -46,7 +46,10 @@ class Arr:
     N = 1000
 
     def __init__(self, cls: str, val=None):
-        self.cls, self.val = cls, val
+        # "tiny": finite and non-zero like any other finite value, but below every tolerance -- only a tolerance-based test
+        # (isclose / allclose, which the real code does not use) can tell it from "finite"
+        self.tiny = cls == "tiny"
+        self.cls, self.val = ("finite" if cls == "tiny" else cls), val
         self.shape, self.size = (Arr.N,), Arr.N
 
     def __eq__(self, other):                 # Z == 0.0
@@ -82,6 +85,16 @@ def isinf(z):
     if isinstance(z, Arr):
         return Mask(z.cls == "open")
     raise O.Unsupported("isinf of a non-array")
+
+
+def isclose(z, v, *a, **kw):
+    if isinstance(z, Arr) and v == 0:
+        return Mask(z.cls == "short" or z.tiny)
+    raise O.Unsupported("isclose of this value")
+
+
+def allclose(z, v, *a, **kw):
+    return isclose(z, v).all()
 
 
 class InfiniteImpedance(Exception):
@@ -125,13 +138,13 @@ def full(shape, value, dtype=None):
 
 def namespace():
     ns = O.base_namespace()
-    ns.update({"where": where, "isinf": isinf, "full": full, "InfiniteImpedance": InfiniteImpedance, "Element": Element, "Container": Container,
+    ns.update({"where": where, "isinf": isinf, "isclose": isclose, "allclose": allclose, "full": full, "InfiniteImpedance": InfiniteImpedance, "Element": Element, "Container": Container,
                "Connection": Connection, "zeros": lambda shape, dtype=None: SQ.of(0), "bool_": bool, "ComplexImpedance": complex,
                "isinstance": isinstance, "len": len, "complex": complex, "float": float})
     return ns
 
 
-CLASSES = ("finite", "short", "open")
+CLASSES = ("finite", "tiny", "short", "open")
 
 
 def run_connection(which: str, sess: Session):
@@ -168,7 +181,7 @@ def run_connection(which: str, sess: Session):
                     else:
                         want = SQ.of(0)
                         for c, v in zip(classes, vals):
-                            if c == "finite":
+                            if c in ("finite", "tiny"):
                                 want = want + v
                         sess.check_qeq("post", P, SQ.of(got), want, 0, label=f"series{tag}: Z == sum of the parts")
                 else:
@@ -186,14 +199,14 @@ def run_connection(which: str, sess: Session):
                     else:
                         want = SQ.of(0)
                         for c, v in zip(classes, vals):
-                            if c == "finite":
+                            if c in ("finite", "tiny"):
                                 want = want + 1 / v
                         ok = raised is None and isinstance(got, SQ)
                         if ok:
                             sess.check_qeq("post", P, got * want, SQ.of(1), 0, label=f"parallel{tag}: 1/Z == sum over non-open branches of 1/Z_k")
                         else:
                             sess.check("post", [], z3.BoolVal(False), 0, label=f"parallel{tag}: 1/Z == sum over non-open branches of 1/Z_k")
-    sess.check("cover", [], z3.BoolVal(n_cases >= 1 + 3 + 81 + 27), 0, label=f"{n_cases} classifications")
+    sess.check("cover", [], z3.BoolVal(n_cases >= 1 + 4 + 144 + 64), 0, label=f"{n_cases} classifications")
     sess.assumptions.append("each branch is open at all frequencies, short at all frequencies, or finite and non-zero at all frequencies (partial zeros: bounded layer)")
 
 
